@@ -332,7 +332,7 @@ def _key_uses(prog, fn, pname, seen=None, depth=0):
     # a key assigned by a top-level statement of this function before it is
     # read here is (re)initialised locally: not a carried-over read
     top = {}
-    for st in fn.node.body:
+    for st in paths.linear(fn.node.body):
         if isinstance(st, ast.Assign) and len(st.targets) == 1:
             sk = paths.subscript_key(st.targets[0])
             if sk and sk[0] == pname and sk[1] not in top:
@@ -355,8 +355,8 @@ def check_defaults(prog, rep, rule='R-defaults'):
         # statements that precede every other use of p
         reset = set()
         first_use_line = None
-        for st in fn.node.body:
-            uses = [x for x in ast.walk(st)
+        for st in paths.linear(fn.node.body):
+            uses = [x for x in paths.own_walk(st)
                     if isinstance(x, ast.Name) and x.id == p]
             if not uses:
                 continue
